@@ -135,22 +135,6 @@ theorem dropEntity_atMostOne (c : Cfg) (s : St) (h : AtMostOne s) (p : Nat) (ent
   · exact h
   · exact atMostOne_filter s h _ _ rfl
 
-inductive Op
-  | bind (p : Nat) (cEnt : List Nat) (cFeat : Nat) (sEnt : List Nat) (sFeat typ : Nat)
-  | unbind (p cDev : Nat) (cEnt : List Nat) (cFeat : Nat) (sEnt : List Nat) (sFeat : Nat)
-  | sub (p : Nat) (cEnt : List Nat) (cFeat : Nat) (sEnt : List Nat) (sFeat typ : Nat)
-  | unsub (p cDev : Nat) (cEnt : List Nat) (cFeat : Nat) (sEnt : List Nat) (sFeat : Nat)
-  | drop (p : Nat)
-  | dropEnt (p : Nat) (ent : List Nat)
-
-def step (c : Cfg) (s : St) : Op → St
-  | .bind p ce cf se sf t => (addBind s p ce cf se sf t).1
-  | .unbind p cd ce cf se sf => (delBind c s p cd ce cf se sf).1
-  | .sub p ce cf se sf t => (addSub s p ce cf se sf t).1
-  | .unsub p cd ce cf se sf => (delSub c s p cd ce cf se sf).1
-  | .drop p => dropPeer c s p
-  | .dropEnt p ent => dropEntity c s p ent
-
 theorem binds_sub (s : St) (p : Nat) (ce : List Nat) (cf : Nat) (se : List Nat) (sf t : Nat) :
     (addSub s p ce cf se sf t).1.binds = s.binds := by
   unfold addSub; repeat' split
